@@ -28,6 +28,42 @@ type recStore struct {
 	header.Store[*vk.H]
 	mu    sync.Mutex
 	calls []recCall
+	// every call of the server into its store is counted; right after the growAt-th one has computed
+	// its (now stale) answer, grow() runs: the store changes between two calls of one request
+	ticks  int
+	growAt int
+	grow   func()
+}
+
+func (r *recStore) tick() {
+	r.mu.Lock()
+	r.ticks++
+	fire := r.growAt != 0 && r.ticks == r.growAt && r.grow != nil
+	r.mu.Unlock()
+	if fire {
+		r.grow()
+	}
+}
+
+func (r *recStore) Head(ctx context.Context, o ...header.HeadOption[*vk.H]) (*vk.H, error) {
+	defer r.tick()
+	return r.Store.Head(ctx, o...)
+}
+func (r *recStore) Tail(ctx context.Context) (*vk.H, error) {
+	defer r.tick()
+	return r.Store.Tail(ctx)
+}
+func (r *recStore) HasAt(ctx context.Context, h uint64) bool {
+	defer r.tick()
+	return r.Store.HasAt(ctx, h)
+}
+func (r *recStore) Has(ctx context.Context, h header.Hash) (bool, error) {
+	defer r.tick()
+	return r.Store.Has(ctx, h)
+}
+func (r *recStore) Height() uint64 {
+	defer r.tick()
+	return r.Store.Height()
 }
 
 type recCall struct {
@@ -43,18 +79,22 @@ func (r *recStore) rec(op string, from, to uint64) {
 
 func (r *recStore) GetRange(ctx context.Context, from, to uint64) ([]*vk.H, error) {
 	r.rec("GetRange", from, to)
+	defer r.tick()
 	return r.Store.GetRange(ctx, from, to)
 }
 func (r *recStore) GetByHeight(ctx context.Context, h uint64) (*vk.H, error) {
 	r.rec("GetByHeight", h, h+1)
+	defer r.tick()
 	return r.Store.GetByHeight(ctx, h)
 }
 func (r *recStore) GetRangeByHeight(ctx context.Context, from *vk.H, to uint64) ([]*vk.H, error) {
 	r.rec("GetRangeByHeight", from.Height()+1, to)
+	defer r.tick()
 	return r.Store.GetRangeByHeight(ctx, from, to)
 }
 func (r *recStore) Get(ctx context.Context, hash header.Hash) (*vk.H, error) {
 	r.rec("Get", 0, 0)
+	defer r.tick()
 	return r.Store.Get(ctx, hash)
 }
 
@@ -66,12 +106,20 @@ type c10Case struct {
 	Amount uint64 `json:"amount,omitempty"`
 	Hash   string `json:"hash,omitempty"` // present | pruned | unknown | empty | huge
 	Raw    string `json:"raw,omitempty"`
+	// GrowAt/GrowBy: right after the GrowAt-th store call of the request (1-based; 0 = never) the store
+	// receives GrowBy more headers (the node keeps syncing while it serves)
+	GrowAt int    `json:"grow_at,omitempty"`
+	GrowBy uint64 `json:"grow_by,omitempty"`
 }
 
 func (c c10Case) String() string {
 	switch c.Kind {
 	case "range":
-		return fmt.Sprintf("store[%d..%d] range(origin=%d,amount=%d)", c.Tail, c.Head, c.Origin, c.Amount)
+		g := ""
+		if c.GrowAt != 0 {
+			g = fmt.Sprintf(" +%d headers after store call %d", c.GrowBy, c.GrowAt)
+		}
+		return fmt.Sprintf("store[%d..%d] range(origin=%d,amount=%d)%s", c.Tail, c.Head, c.Origin, c.Amount, g)
 	case "hash":
 		return fmt.Sprintf("store[%d..%d] hash(%s)", c.Tail, c.Head, c.Hash)
 	}
@@ -82,6 +130,7 @@ var c10Chain = vk.GenChain(vk.ChainSpec{N: 210, Step: time.Second})
 
 type c10Out struct {
 	resps   []*p2p_pb.HeaderResponse
+	ticks   int
 	readErr string
 	elapsed time.Duration
 	calls   []recCall
@@ -127,7 +176,14 @@ func c10Exec(t *testing.T, run *vk.Run, c c10Case) (out c10Out, ok bool) {
 			st, _ = store.NewStore[*vk.H](ds.Wrap(false), store.WithWriteBatchSize(16))
 			_ = st.Start(bg)
 		}
-		rs := &recStore{Store: st}
+		rs := &recStore{Store: st, growAt: c.GrowAt}
+		if c.GrowAt != 0 {
+			stNow := st
+			rs.grow = func() {
+				_ = stNow.Append(bg, c10Chain.Slice(c.Head+1, c.Head+c.GrowBy)...)
+				_ = stNow.Sync(bg)
+			}
+		}
 		srv, err := p2p.NewExchangeServer[*vk.H](srvHost, rs, p2p.WithNetworkID[p2p.ServerParameters](netID))
 		if err != nil {
 			run.HarnessError("C10 server: %v", err)
@@ -209,6 +265,7 @@ func c10Exec(t *testing.T, run *vk.Run, c c10Case) (out c10Out, ok bool) {
 		vk.Settle()
 		rs.mu.Lock()
 		out.calls = append([]recCall(nil), rs.calls...)
+		out.ticks = rs.ticks
 		rs.mu.Unlock()
 		out.reads = ds.Reads - readsBefore
 		ok = true
@@ -263,6 +320,10 @@ func c10Check(run *vk.Run, c c10Case, o c10Out) {
 	if c.Head == 0 {
 		feat += ",emptystore"
 	}
+	if c.GrowAt != 0 {
+		feat += ",store-grows"
+	}
+	newHead := c.Head + c.GrowBy
 	viol := func(clause, format string, a ...any) {
 		run.Violate("C10/"+clause+"/"+feat, c, "%s: %s", c, fmt.Sprintf(format, a...))
 	}
@@ -331,11 +392,11 @@ func c10Check(run *vk.Run, c c10Case, o c10Out) {
 		}
 		got = append(got, h)
 	}
-	inStore := func(h uint64) bool { return c.Head != 0 && h >= c.Tail && h <= c.Head }
+	inStore := func(h uint64) bool { return c.Head != 0 && h >= c.Tail && h <= newHead }
 	switch c.Kind {
 	case "range":
 		if c.Origin == 0 {
-			if len(got) != 1 || got[0].Ht != c.Head || string(got[0].Hash()) != string(c10Chain[c.Head].Hash()) {
+			if len(got) != 1 || got[0].Ht < c.Head || got[0].Ht > newHead || string(got[0].Hash()) != string(c10Chain[got[0].Ht].Hash()) {
 				viol("wrong-head", "head request answered with %v, store head is %d", vk.Heights(got), c.Head)
 			}
 			return
@@ -354,7 +415,14 @@ func c10Check(run *vk.Run, c c10Case, o c10Out) {
 		if c.Origin+c.Amount-1 > c.Head {
 			wantK = c.Head - c.Origin + 1
 		}
-		if uint64(len(got)) != wantK {
+		maxK := c.Amount
+		if c.Origin+c.Amount-1 > newHead {
+			maxK = newHead - c.Origin + 1
+		}
+		if c.GrowAt != 0 && (uint64(len(got)) < wantK || uint64(len(got)) > maxK) {
+			viol("wrong-count", "%d OK responses, want between %d and %d (amount %d, store head %d growing to %d)", len(got), wantK, maxK, c.Amount, c.Head, newHead)
+		}
+		if c.GrowAt == 0 && uint64(len(got)) != wantK {
 			viol("wrong-count", "%d OK responses, want %d (amount %d, store head %d)", len(got), wantK, c.Amount, c.Head)
 		}
 	case "hash":
@@ -371,7 +439,7 @@ func c10Check(run *vk.Run, c c10Case, o c10Out) {
 func TestC10(t *testing.T) {
 	run := vk.NewRun("C10", "model_checking")
 	defer run.Finish()
-	run.SetRule("real ExchangeServer over a real pruned store.Store (tail > 1) behind a recording proxy, requests written as raw frames on a mocknet stream: all (origin, amount) pairs over {0,1,tail-1,tail,tail+1,mid,head-1,head,head+1,head+64,2^64-2,2^64-1} x {0,1,2,63,64,65,head-tail+5,2^63,2^64-1}, hash requests {present,pruned,unknown,empty,512KiB}, raw byte strings {empty, one byte, prefix only, truncated, oneof unset, random, oversized prefix, silent}; distinct = (request class relative to tail/head, reply shape)")
+	run.SetRule("real ExchangeServer over a real pruned store.Store (tail > 1) behind a recording proxy, requests written as raw frames on a mocknet stream: all (origin, amount) pairs over {0,1,tail-1,tail,tail+1,mid,head-1,head,head+1,head+64,2^64-2,2^64-1} x {0,1,2,63,64,65,head-tail+5,2^63,2^64-1}, hash requests {present,pruned,unknown,empty,512KiB}, raw byte strings {empty, one byte, prefix only, truncated, oneof unset, random, oversized prefix, silent}; deviation: for range requests on the small stores the store grows by {3,100} headers right after the k-th store call of the request, for every k the fault-free run makes; distinct = (request class relative to tail/head, reply shape)")
 	run.Assume("work is measured as headers requested from the store proxy and datastore reads under the real store")
 	_ = datastore.ErrNotFound
 
@@ -417,6 +485,40 @@ func TestC10(t *testing.T) {
 			cases = append(cases, c10Case{Tail: tl, Head: hd, Kind: "raw", Raw: r})
 		}
 	}
+	// deviation: the store grows between two store calls of one request; positions are discovered
+	// from the fault-free run of the same request (number of store calls it makes)
+	var growBases []c10Case
+	for _, c := range cases {
+		if c.Kind == "range" && c.Head != 0 && c.Head <= 30 && c.Amount >= 1 && c.Amount <= 65 && c.Origin >= 1 && c.Origin <= c.Head+1 {
+			growBases = append(growBases, c)
+		}
+	}
+	var gmu sync.Mutex
+	gq := vk.NewWorkQueue(len(growBases))
+	vk.Shards(t, vk.NumShards(), func(t *testing.T, shard int) {
+		for {
+			i, ok := gq.Next()
+			if !ok || dl.Hit() {
+				return
+			}
+			o, ok2 := c10Exec(t, run, growBases[i])
+			if !ok2 {
+				continue
+			}
+			var add []c10Case
+			for k := 1; k <= o.ticks; k++ {
+				for _, by := range []uint64{3, 100} {
+					gc := growBases[i]
+					gc.GrowAt, gc.GrowBy = k, by
+					add = append(add, gc)
+				}
+			}
+			gmu.Lock()
+			cases = append(cases, add...)
+			gmu.Unlock()
+		}
+	})
+	run.Set("store_grows_cases", len(cases))
 	run.Set("cases", len(cases))
 	q := vk.NewWorkQueue(len(cases))
 	vk.Shards(t, vk.NumShards(), func(t *testing.T, shard int) {
